@@ -1149,7 +1149,7 @@ public:
 	{
 		for (entry *c = _d.begin(), *e = _d.end(); c < e; ++c) {
 			if (c->key == key) {
-				return &e->value;
+				return &c->value;
 			}
 		}
 		return 0;
